@@ -185,6 +185,9 @@ def run(ctx, rep):
         else:
             rep.ok("R10.3", "decode only while no error is latched", "", where=g.where(cn))
 
+    # ---------------- R10.5 -------------------------------------------------------------
+    r10_5(ctx, rep, M)
+
     # ---------------- R10.4 -------------------------------------------------------------
     pops = [n for n in P.calls(r"BTreeMap::<K, V, A>::(pop_last|remove|last_entry)$")
             if call_is(strip_ids(event_args(g, n)[0]), r"BTreeMap::<K, V>::new$|BTreeMap::<K, V, A>::new$")]
@@ -213,3 +216,64 @@ def run(ctx, rep):
                           path=describe_path(P, [k[0] for k in path_to(seen4, bad)]))
         else:
             rep.ok("R10.4", "reuse of last chunk", "only on the `truncated is None` edge", where=g.where(n))
+
+
+def r10_5(ctx, rep, M, rule="R10.5"):
+    """the zero-tail scanner (the inlined function that issues the positional read of the tail) may answer 'not all zero' only after
+    it has witnessed a non-zero byte (a u8 compared with 0): any other evidence (block compares of unequal length, size tests) makes a
+    genuine zero-filled tail look damaged, and open then refuses a recoverable image"""
+    rep.rule(rule, "the tail scan answers 'not zero' (Ok(false)) only on a witnessed `byte != 0`; it answers 'all zero' only at end of file")
+    g, P = M.g, M.P
+    scans = sorted({n[0] for n in P.calls(r"FileExt>?::read_at$")})
+    rep.floor(rule, "zero-tail scanner (function issuing read_at in Op(open))", len(scans), 1)
+    for iid in scans:
+        inst = g.insts[iid]
+        entry = (iid, 0)
+        rets = {(iid, bi) for bi, blk in enumerate(inst.body["blocks"]) if not blk["cleanup"] and blk["term"]["k"] == "return"}
+
+        def step(ms, pi, qi, learn, entry=entry):
+            nz, eof = ms
+            if P.gnode(pi) == entry:
+                nz, eof = False, False
+            for o, v in norm_learn(learn):
+                fl = M.fact_flags(o, v)
+                if "nonzero" in fl:
+                    nz = True
+                if "eof_reached" in fl:
+                    eof = True
+            return (nz, eof)
+        seen = run_monitor(P, (False, False), step)
+        bad_f = bad_t = None
+        n_f = n_t = 0
+        for (pi, ms) in seen:
+            if P.gnode(pi) not in rets:
+                continue
+            tags = P.tags_after_block(pi)
+            r0 = tags.get((iid, 0, ()))
+            inner = tags.get((iid, 0, ("0",)))
+            if not (r0 and r0[0] == "Ok" and inner):
+                continue
+            if inner[0] == "false":
+                n_f += 1
+                if not ms[0]:
+                    bad_f = (pi, ms)
+            elif inner[0] == "true":
+                n_t += 1
+                if not ms[1] or ms[0]:
+                    bad_t = (pi, ms)
+        if bad_f:
+            rep.violation(rule, "open|tail-scan-says-nonzero-without-a-nonzero-byte", "zero-tail scan",
+                          "the scan of the bytes after the last good record can report 'not all zero' without having seen a byte != 0 "
+                          "(e.g. a block compare against a fixed-size zero array fails on the last short block): a zero-filled tail left by a "
+                          "power loss is then treated as corruption and open refuses a recoverable directory", where=g.where(P.gnode(bad_f[0])),
+                          path=describe_path(P, [k[0] for k in path_to(seen, bad_f)]))
+        elif n_f:
+            rep.ok(rule, "tail scan: 'not zero'", "only after a witnessed byte != 0 (%d return state(s))" % n_f, where=g.where(entry))
+        else:
+            rep.unresolved(rule, "tail-scan-false-return", "the scanner has no Ok(false) return: idiom not recognised", where=g.where(entry))
+        if bad_t:
+            rep.violation(rule, "open|tail-scan-says-zero-before-eof", "zero-tail scan",
+                          "the scan can report 'all zero' without having reached the end of the file (or after a non-zero byte)",
+                          where=g.where(P.gnode(bad_t[0])), path=describe_path(P, [k[0] for k in path_to(seen, bad_t)]))
+        elif n_t:
+            rep.ok(rule, "tail scan: 'all zero'", "only at end of file with no non-zero byte seen (%d return state(s))" % n_t, where=g.where(entry))
